@@ -278,11 +278,28 @@ func (w *World) Do(cmd proto.Cmd) (*proto.Result, error) {
 		return nil, err
 	}
 	w.absorb(res)
+	if traceReqs {
+		for i, rq := range cmd.Reqs {
+			if i < len(res.Resps) {
+				b, rb := rq.Body, res.Resps[i].Body
+				if len(b) > 400 {
+					b = b[:400]
+				}
+				if len(rb) > 300 {
+					rb = rb[:300]
+				}
+				fmt.Fprintf(os.Stderr, "TRACE %s %s %s %q -> %d %q\n", cmd.Mode, rq.Method, rq.URL, b, res.Resps[i].Status, rb)
+			}
+		}
+	}
 	if res.Crashed {
 		return res, ErrPlannedCrash
 	}
 	return res, nil
 }
+
+// traceReqs (VERIF_TRACE=1) prints every request and answer to stderr; debugging aid, never part of a verdict.
+var traceReqs = os.Getenv("VERIF_TRACE") != ""
 
 // Batch issues requests concurrently; mode "barrier" also drains background work.
 func (w *World) Batch(reqs []proto.Req, mode string) (*proto.Result, error) {
